@@ -234,6 +234,9 @@ detail::TypedArgBase*
    mSubGroupArgs.addArgument( arg_hdl, key);
    mDescription.addArgument( desc, arg_hdl);
 
+   if (mUsedByGroup)
+      Groups::instance().crossCheckArguments( this);
+
    return arg_hdl;
 } // Handler::addArgument
 
